@@ -351,7 +351,7 @@ func TestC30(t *testing.T) {
 	idle := time.Duration(ev.Scale(800, 2500)) * time.Millisecond
 
 	// ----- part A -----
-	kexes := []string{"curve25519-sha256", "diffie-hellman-group-exchange-sha256"}
+	kexes := []string{"curve25519-sha256", "diffie-hellman-group-exchange-sha256", "mlkem768x25519-sha256"}
 	if ev.Thorough() {
 		kexes = c29Kexes
 	}
